@@ -126,6 +126,15 @@ CLAIMED["C10"] = dict(cat="other", technique="freshness typestate (forward must-
    note="Effect summaries trust a small library model (copy/fill/fft_execute by pointer arguments). One defect repaired (F5 energy axis), one recorded at 7 sites as known "
         "findings (F6: records written on a renormalising step store pre-normalisation projections/moments/wake).",
    ref="DESIGN.md §3 C10")
+CLAIMED["C14"] = dict(cat="other", technique="whole-program who-writes/who-reads analysis of the abort flag, handler effect set, structural exit analysis of the simulation loop and of the code after it",
+   text="A static non-interference argument that covers every instruction boundary at which SIGINT can arrive: the only handler installed calls nothing and only stores true to a "
+        "volatile flag; every writer in the program stores true; the flag is read by the loop condition (once per iteration, side-effect free) and by the final message only; "
+        "nothing leaves the loop body early and the step counter advances exactly once per iteration, so the step in progress completes; after the loop the only way out is the "
+        "unconditional return EXIT_SUCCESS past the final-record block, which is guarded only by the file being open and appends to everything the loop appends to (All); the "
+        "flag is not read during set-up. Hence records before the interrupt equal those of the uninterrupted run and exactly one final record follows. The hook suggested in the "
+        "anchor (raising SIGINT at enumerated points) is a dynamic instrument and is deliberately not used.",
+   note="Assumes glibc signal() restarts system calls (SA_RESTART) and that a volatile bool store is atomic. HDF5 library internals are not analysed.",
+   ref="DESIGN.md §3 C14")
 NOT_YET = "check not built yet in this round (static rule designed in DESIGN.md §3, not implemented)"
 NA = {}
 
